@@ -155,10 +155,14 @@ class FitsTiler(object):
                 if cli_progress:
                     print("Tile directory already exists -- reusing")
 
+                wtml_path = os.path.join(self.out_dir, "index_rel.wtml")
+
                 if os.path.exists(os.path.join(self.out_dir, "properties")):
                     self._copy_hips_properties_to_builder()
+                elif os.path.exists(wtml_path):
+                    self._restore_builder_from_wtml(wtml_path)
 
-                return
+                return self
 
         if self.tiling_method == TilingMethod.HIPS:
             self._tile_hips(cli_progress, parallel)
@@ -396,6 +400,27 @@ class FitsTiler(object):
             os.symlink(src=absolute_path, dst=link_path)
 
         return dir
+
+    def _restore_builder_from_wtml(self, wtml_path):
+        """Make the builder describe the data set recorded in an existing
+        ``index_rel.wtml`` file, as when the pyramid was first produced."""
+        from wwt_data_formats.folder import Folder
+        from wwt_data_formats.imageset import ImageSet
+        from wwt_data_formats.place import Place
+
+        folder = Folder.from_file(wtml_path)
+
+        for child in folder.children:
+            if isinstance(child, Place) and child.foreground_image_set is not None:
+                self.builder.place = child
+                self.builder.imgset = child.foreground_image_set
+                break
+
+            if isinstance(child, ImageSet):
+                self.builder.imgset = child
+                self.builder.place.foreground_image_set = child
+                self.builder.place.name = child.name
+                break
 
     def _copy_hips_properties_to_builder(self):
         hips_properties = dict()
